@@ -7,11 +7,12 @@ from vf import universe_b  # noqa: F401  (registers group B zones)
 from vf.prng import mix
 
 GROUP_B = ("Z5", "Z6", "Z7", "Z8")
+FX_Z7 = 24000  # documents of Z7 whose fix runs are observed by the parser-level monitors
 
 QUICK = {"Z2": 24000, "Z3": 5000, "Z4": 5000, "Z5": 12000, "Z7": 4000, "Z8": 4000}
 
 
-def plan_docs(tier, seed, complete=False, quick=None, zones=("Z1", "Z2", "Z3", "Z4", "Z5", "Z6", "Z7", "Z8"), z1_all=True, limit=None, check=None, force_b=False, ranges=None):
+def plan_docs(tier, seed, complete=False, quick=None, zones=("Z1", "Z2", "Z3", "Z4", "Z5", "Z6", "Z7", "Z8"), z1_all=True, limit=None, check=None, force_b=False, ranges=None, fx=0):
     quick = quick or QUICK
     items = []
     zinfo = {}
@@ -35,6 +36,13 @@ def plan_docs(tier, seed, complete=False, quick=None, zones=("Z1", "Z2", "Z3", "
         idx = [pool[i] for i in idx] if pool is not None else list(idx)
         zinfo[z] = {"universe": n, "run": len(idx)}
         items.extend(f"{z}:{i}" for i in idx)
+    if fx and (group_b_active(check) or force_b):
+        # group B also holds the fix-mode internal-parse workload (FX:<key>)
+        n = FX_Z7
+        idx = range(n) if (complete or tier == "thorough") else U.pick("Z7", seed + 77, fx, 0, n)
+        idx = list(idx)
+        zinfo["FX(Z7)"] = {"universe": n, "run": len(idx)}
+        items.extend(f"FX:Z7:{i}" for i in idx)
     return items, zinfo
 
 
